@@ -50,7 +50,7 @@ def Leaf.key (l : Leaf) : List String × String := (l.path, l.info.name)
 /-- expected content of a leaf: none = zero -/
 def specLeaf (t : Tree) (l : Leaf) : Option Src :=
   if eligible t l then
-    match ((specParams t).map Leaf.key).idxOf? l.key with
+    match idx ((specParams t).map Leaf.key) l.key with
     | some i => some (.arg i)
     | none => none
   else if l.top ∧ l.info.defv ≠ "" then some (.defx l.info.defv)
